@@ -445,7 +445,9 @@ class Systematic(_NoReplay):
         if path.outcome != "return":
             return
         n, w = self.n, self.w
-        yield "one_uniform(0,1)_offset", len(UNI.sample_calls) == 1 and UNI.sample_calls[0]["args"] == (0.0, 1.0) and UNI.sample_calls[0]["sample_shape"] == ()
+        # ONE scalar uniform draw; its range may be written as U(0,1) (then divided by n) or e.g. U(0, 1/n): what matters
+        # is the position it is mapped to (next clauses)
+        yield "one_scalar_uniform_offset", len(UNI.sample_calls) == 1 and len(UNI.sample_calls[0]["args"]) == 2 and UNI.sample_calls[0]["sample_shape"] == ()
         cs, ss = jnp_stub.CALLS["cumsum"], jnp_stub.CALLS["searchsorted"]
         yield "one_cumsum_one_searchsorted(left)", len(cs) == 1 and len(ss) == 1 and ss[0]["side"] == "left"
         if not (len(cs) == 1 and len(ss) == 1 and len(UNI.sample_calls) == 1):
@@ -453,8 +455,14 @@ class Systematic(_NoReplay):
         i = fresh("i", z3.IntSort())
         L = lse(n, w)
         yield "cumsum_of_normalised_weights", cs[0]["x"].fn((i,)) == JNP.exp(Sym(w.fn((i,)) - L)).e
-        u = dists.DrawR(UNI.id, UNI.sample_calls[0]["nonce"], z3.RealVal(0), z3.RealVal(1))
-        yield "positions_are_(j+u)/n", ss[0]["v"].fn((i,)) == (z3.ToReal(i) + u) / z3.ToReal(n)
+        from vt.tensor import _toreal
+
+        lo, hi = (_toreal(_lift(x)) for x in UNI.sample_calls[0]["args"])
+        yield "offset_range_is_not_empty", hi > lo
+        u = dists.DrawR(UNI.id, UNI.sample_calls[0]["nonce"], lo, hi)
+        u01 = u if (z3.eq(z3.simplify(lo), z3.RealVal(0)) and z3.eq(z3.simplify(hi), z3.RealVal(1))) else (u - lo) / (hi - lo)
+        yield "positions_are_(j+u)/n(u_the_offset_rescaled_to_the_unit_interval)", ss[0]["v"].fn((i,)) == (z3.ToReal(i) + u01) / z3.ToReal(n)
+        yield "one_position_per_particle", dim_eq(ss[0]["v"].shape[0], n)
         yield "searched_in_the_cumulative_weights", ss[0]["a"] is cs[0]["out"]
         yield "returns_the_searchsorted_indices", path.value is ss[0]["out"] and dim_eq(path.value.shape[0], n)
 
